@@ -1,5 +1,5 @@
 CONSTANTS Keys = {"a", "b"}
-          NHol = 3
+          NHol = 2
           NWk = 1
           NLo = 1
           NHi = 1
